@@ -207,6 +207,9 @@ def run(ctx):
                 "judged for K analysis orders on fresh databases; distinct = (SCC size, collisions, mode) and mismatch classes")
     vh = VH(vh_bin(), locklog=os.path.join(ctx.scratch_root, "lock_vh.log"))
     try:
+        pinned(ctx, vh)
+        if os.environ.get("VERIF_ONLY_PINNED"):
+            return
         for i in range(n):
             root = ctx.scratch(f"g{i}")
             ws = gen_graph_ws(root, ctx.rng, unique=(i % 2 == 0))
@@ -279,3 +282,25 @@ def server_diagnostics(ctx, ws, model):
         ctx.count("server_sessions")
     finally:
         srv.shutdown()
+
+
+def pinned(ctx, vh):
+    from ..witness import WITNESS, ws_from_witness
+    for kf_id, reps in ((KF_NAME_GRAPH, 1), (KF_HASH, 16)):
+        w = WITNESS[kf_id]
+        ws = ws_from_witness(ctx, w)
+        model = ws.model()
+        files = sorted(ws.py_files())
+        seen = []
+        for k in range(reps):
+            db = vh.new_db()
+            vh.call(op="batch", cmds=[{"op": "analyze_fresh", "db": db, "path": ws.abs(r), "text": ws.files[r]} for r in w["order"]])
+            raw = vh.call(op="raw", db=db)
+            q = vh.call(op="queries", db=db, files=[ws.abs(r) for r in files])
+            seen.append(judge(ctx, ws, model, raw, q, ("pinned", w["order"])))
+            vh.call(op="drop_db", db=db)
+        if kf_id == KF_HASH:
+            ctx.judged()
+            if any(s_[0] != seen[0][0] or s_[1] != seen[0][1] for s_ in seen[1:]):
+                ctx.known(KF_HASH) and ctx.count("kf_hash_dependent_cycles")
+        shutil.rmtree(ws.root, ignore_errors=True)
